@@ -5,12 +5,22 @@ X86Model/Driver/Proto.lean). The handler chain tries each property family in tur
 import X86Model.Driver.Proto
 import X86Model.Driver.Addr
 import X86Model.Driver.Consts
+import X86Model.Driver.Mapper
 
 open X86 X86.Driver
 
-def allHandlers : List Handler := [handleC03, handleC04, handleC05, handleC06, handleC07, handleC19]
+/-- Driver state carried from line to line. -/
+structure DState where
+  mapper : MState := {}
 
-def dispatch : Handler := fun cfg op a impl =>
-  allHandlers.firstM (fun h => h cfg op a impl)
+def statelessHandlers : List Handler := [handleC03, handleC04, handleC05, handleC06, handleC07, handleC19]
 
-def main (_args : List String) : IO UInt32 := run dispatch
+def dispatch : SHandler DState := fun cfg op a impl st =>
+  match statelessHandlers.firstM (fun h => h cfg op a impl) with
+  | some v => some (v, st)
+  | none =>
+    match handleMapper cfg op a impl st.mapper with
+    | some (v, m) => some (v, { st with mapper := m })
+    | none => none
+
+def main (_args : List String) : IO UInt32 := run dispatch ({} : DState)
